@@ -384,16 +384,13 @@ class EntryGraph:
         return True
 
     def leaf_closure(self, term):
-        """closure body 'may be called' by a leaf (e.g. Persistent::update)"""
+        """closure body 'may be called' by a storage-update leaf (Persistent::update(key, |old| new))"""
         if self.walked(term):
             return None
-        if 'storage::Persistent::update' in term['callee'] or 'storage::Instance::update' in term['callee'] \
-                or 'storage::Temporary::update' in term['callee']:
-            m = re.search(r'\{closure@[^}]*\}', term['callee'])
-            if m:
-                for k in self.crate.inst:
-                    if k.endswith(m.group(0)) and self.crate.inst[k].get('is_closure'):
-                        return k
+        if re.search(r'storage::(Persistent|Instance|Temporary)::(try_)?update::<', term['callee']):
+            for k in term.get('closures', []):
+                if k in self.crate.inst:
+                    return k
         return None
 
     def _build_ctx_tree(self):
@@ -677,6 +674,142 @@ class EntryGraph:
                 return ('closure', rv['def'], ops)
             return ('agg', kind, ops)
         return ('opaque', rv.get('d', k))
+
+    # ---------------- def-use chains (guarded value flow) ----------------
+    @staticmethod
+    def _proj_path(pl):
+        """field path selected by a place projection (derefs ignored; an enum payload field is transparent)"""
+        path = []
+        after_variant = False
+        for e in pl.get('p', []):
+            if e == '*':
+                continue
+            if 'v' in e:
+                after_variant = True
+                continue
+            if 'f' in e:
+                if after_variant:
+                    after_variant = False
+                    continue
+                path.append(e['n'] or str(e['f']))
+            else:
+                path.append('[]')
+        return tuple(path)
+
+    def def_chains(self, ctx, bb, idx, place, limit=400):
+        """Backward def-use chains from the value of `place` (dict l/p, or a local number) at the point (bb, idx):
+        list of (nodes, leaf_term) where nodes are the (ctx id, bb) of every definition the selected
+        (sub)value passes through — copies, moves, casts, struct/tuple construction (only the selected field is
+        followed), returns of walked callees, parameter passing — newest first, and leaf_term is the normalised
+        term of the originating definition."""
+        from norm import norm as _norm
+        if isinstance(place, int):
+            place = {'l': place}
+        out = []
+        budget = [limit]
+
+        def leaf(nodes, term, path):
+            budget[0] -= 1
+            t = _norm(term)
+            for f in path:
+                t = _norm(('field', f, t))
+            out.append((nodes, t))
+
+        def follow_operand(c, b, i, o, path, nodes, seen):
+            if o['k'] in ('copy', 'move'):
+                walk(c, b, i, o['pl']['l'], self._proj_path(o['pl']) + path, nodes, seen)
+            else:
+                leaf(nodes, self.term_operand(c, b, i, o), path)
+
+        def walk(c, b, i, l, path, nodes, seen):
+            if budget[0] <= 0:
+                return
+            key = (c.id, c.body.get('key'), b, i, l, path)
+            if key in seen:
+                return
+            seen = seen | {key}
+            rd = reaching(c.body, b, i, l)
+            if not rd:
+                if 1 <= l <= c.body.get('argc', 0) and c.parent is not None and c.closure_call != 'leafclosure':
+                    p = c.parent
+                    t = p.body['blocks'][c.callbb]['term']
+                    pi = len(p.body['blocks'][c.callbb]['st'])
+                    if c.closure_call:
+                        if l == 1:
+                            follow_operand(p, c.callbb, pi, t['args'][0], path, nodes, seen)
+                        elif len(t['args']) > 1:
+                            follow_operand(p, c.callbb, pi, t['args'][1], (str(l - 2),) + path, nodes, seen)
+                        return
+                    if l - 1 < len(t['args']):
+                        follow_operand(p, c.callbb, pi, t['args'][l - 1], path, nodes, seen)
+                        return
+                leaf(nodes, self.term_local(c, b, i, l), path)
+                return
+            for did in sorted(rd):
+                d = c.body['defs'][did]
+                n2 = nodes + [(c.id, d['bb'])]
+                if d['kind'] == 'assign':
+                    rv = d['rv']
+                    k = rv['r']
+                    if k == 'use':
+                        follow_operand(c, d['bb'], d['idx'], rv['o'], path, n2, seen)
+                    elif k in ('ref', 'rawptr'):
+                        walk(c, d['bb'], d['idx'], rv['pl']['l'], self._proj_path(rv['pl']) + path, n2, seen)
+                    elif k == 'cast':
+                        follow_operand(c, d['bb'], d['idx'], rv['a'], path, n2, seen)
+                    elif k == 'bin':
+                        # arithmetic: the result derives from both operands (checked ops yield a (value, flag) pair)
+                        p2 = path[1:] if path and path[0] in ('0', '1') and rv['op'].endswith('WithOverflow') else path
+                        any_local = False
+                        for o in (rv['a'], rv['b']):
+                            if o['k'] in ('copy', 'move'):
+                                any_local = True
+                                follow_operand(c, d['bb'], d['idx'], o, p2, n2, seen)
+                        if not any_local:
+                            leaf(n2, self.term_def(c, d, 0), path)
+                    elif k == 'agg' and rv['kind'] in ('adt', 'tuple'):
+                        ops = rv['ops']
+                        if rv['kind'] == 'adt' and rv.get('is_enum'):
+                            for o in ops:
+                                follow_operand(c, d['bb'], d['idx'], o, path, n2, seen)
+                            if not ops:
+                                leaf(n2, self.term_def(c, d, 0), path)
+                        elif path:
+                            names = rv['fields'] if rv['kind'] == 'adt' else [str(x) for x in range(len(ops))]
+                            if path[0] in names:
+                                follow_operand(c, d['bb'], d['idx'], ops[names.index(path[0])], path[1:], n2, seen)
+                            else:
+                                leaf(n2, self.term_def(c, d, 0), path)
+                        else:
+                            leaf(n2, self.term_def(c, d, 0), path)
+                    else:
+                        leaf(n2, self.term_def(c, d, 0), path)
+                elif d['kind'] == 'call':
+                    t = d['term']
+                    if d['bb'] in c.children and c.children[d['bb']].closure_call != 'leafclosure':
+                        ch = c.children[d['bb']]
+                        for bi, blk in enumerate(ch.body['blocks']):
+                            if not blk['cleanup'] and blk['term']['t'] == 'return':
+                                walk(ch, bi, len(blk['st']), 0, path, n2, seen)
+                    else:
+                        ta = transparent_arg(t['callee'])
+                        if ta is not None and ta < len(t['args']):
+                            follow_operand(c, d['bb'], d['idx'], t['args'][ta], path, n2, seen)
+                        elif re.search(r'core::num::<impl [iu]\d+>::(checked|wrapping|saturating|overflowing)_', t['callee']):
+                            for o in t['args']:
+                                follow_operand(c, d['bb'], d['idx'], o, path, n2, seen)
+                        else:
+                            leaf(n2, self.term_def(c, d, 0), path)
+                else:
+                    leaf(n2, self.term_def(c, d, 0), path)
+        walk(ctx, bb, idx, place['l'], self._proj_path(place), [], frozenset())
+        return out
+
+    def operand_chains(self, ctx, bb, o):
+        """def-use chains of a call/switch operand at the terminator of block bb"""
+        if o['k'] not in ('copy', 'move'):
+            return []
+        return self.def_chains(ctx, bb, len(ctx.body['blocks'][bb]['st']), o['pl'])
 
     # ---------------- abstract exploration ----------------
     def _explore(self):
